@@ -27,6 +27,7 @@ import Fir.Proofs.SimdU16x1Lemmas
 import Fir.Proofs.SimdU16x4Lemmas
 import Fir.Proofs.SimdU16x2Lemmas
 import Fir.Proofs.SimdU16x3Lemmas
+import Fir.Proofs.SimdPassIntLemmas
 
 namespace Fir.C02
 open Fir
@@ -574,5 +575,58 @@ theorem u16x3_sse4_source_as_modelled :
     Fir.Gen.u16x3_sse4_one_row_skeleton = "normalizer.precision() ; _mm_set1_epi64x(1 << (precision - 1)) ; _mm_set1_epi64x(1 << (precision - 2)) ; chunks_exact(2) ; remainder() ; _mm_set1_epi64x(k[0] as i64) ; _mm_set1_epi64x(k[1] as i64) ; _mm_set_epi64x(k[1] as i64, k[0] as i64) ; simd_utils::loadu_si128(src_row, x) ; _mm_shuffle_epi8(source, rg0_shuffle) ; _mm_add_epi64(rg_sum, _mm_mul_epi32(rg0_i64x2, coeff0_i64x2)) ; _mm_shuffle_epi8(source, rg1_shuffle) ; _mm_add_epi64(rg_sum, _mm_mul_epi32(rg1_i64x2, coeff1_i64x2)) ; _mm_shuffle_epi8(source, bb_shuffle) ; _mm_add_epi64(bb_sum, _mm_mul_epi32(bb_i64x2, coeff_i64x2)) ; _mm_set1_epi64x(k as i64) ; get_unchecked(x) ; _mm_set_epi64x(pixel.0[1] as i64, pixel.0[0] as i64) ; _mm_add_epi64(rg_sum, _mm_mul_epi32(rg_i64x2, coeff_i64x2)) ; _mm_set_epi64x(0, pixel.0[2] as i64) ; _mm_add_epi64(bb_sum, _mm_mul_epi32(bb_i64x2, coeff_i64x2)) ; _mm_storeu_si128(rg_buf.as_mut_ptr() as *mut __m128i, rg_sum) ; _mm_storeu_si128(bb_buf.as_mut_ptr() as *mut __m128i, bb_sum) ; normalizer.clip(rg_buf[0]) ; normalizer.clip(rg_buf[1]) ; normalizer.clip(bb_buf[0] + bb_buf[1]) | let width = src_row.len() ; let end_x = x + coeffs.len() ; if width - end_x >= 1 ; for &k in coeffs" ∧
     Fir.Gen.u16x3_sse4_four_rows_skeleton = "normalizer.precision() ; _mm_set1_epi8(0) ; _mm_set1_epi8(0) ; chunks_exact(2) ; remainder() ; _mm_set1_epi64x(k[0] as i64) ; _mm_set1_epi64x(k[1] as i64) ; _mm_set_epi64x(k[1] as i64, k[0] as i64) ; simd_utils::loadu_si128(src_rows[i], x) ; _mm_shuffle_epi8(source, rg0_shuffle) ; _mm_add_epi64(rg_sum[i], _mm_mul_epi32(rg0_i64x2, coeff0_i64x2)) ; _mm_shuffle_epi8(source, rg1_shuffle) ; _mm_add_epi64(rg_sum[i], _mm_mul_epi32(rg1_i64x2, coeff1_i64x2)) ; _mm_shuffle_epi8(source, bb_shuffle) ; _mm_add_epi64(bb_sum[i], _mm_mul_epi32(bb_i64x2, coeff_i64x2)) ; _mm_set1_epi64x(k as i64) ; get_unchecked(x) ; _mm_set_epi64x(pixel.0[1] as i64, pixel.0[0] as i64) ; _mm_add_epi64(rg_sum[i], _mm_mul_epi32(rg_i64x2, coeff_i64x2)) ; _mm_set_epi64x(0, pixel.0[2] as i64) ; _mm_add_epi64(bb_sum[i], _mm_mul_epi32(bb_i64x2, coeff_i64x2)) ; _mm_storeu_si128(rg_buf.as_mut_ptr() as *mut __m128i, rg_sum[i]) ; _mm_storeu_si128(bb_buf.as_mut_ptr() as *mut __m128i, bb_sum[i]) ; normalizer.clip(rg_buf[0] + half_error) ; normalizer.clip(rg_buf[1] + half_error) ; normalizer.clip(bb_buf[0] + bb_buf[1] + half_error) | let width = src_rows[0].len() ; let end_x = x + coeffs.len() ; if width - end_x >= 1 ; for &k in coeffs" := by
   constructor <;> rfl
+
+/-! ### the SIMD kernels in the vocabulary of the portable model
+
+    Every channel of the pixel one of these kernels stores is `Fir.passInt` - the arithmetic every C01 / C10 / C18 theorem is
+    about - of the same coefficients and the same window of source samples (coefficients in the range of their integer type,
+    samples in the range of the component type), so those theorems hold of what the SSE4.1 kernels store. -/
+
+theorem u16x1_sse4_eq_passInt (p : Nat) (row : List Int) (start : Nat) (ks : List Int)
+    (hk : ∀ k ∈ ks, -2147483648 ≤ k ∧ k ≤ 2147483647) (hb : ∀ i, 0 ≤ row.getD i 0 ∧ row.getD i 0 ≤ 65535) :
+    Fir.SimdU16x1.pixel p row start ks = passInt .u16 ks ((List.range ks.length).map fun i => row.getD (start + i) 0) p := by
+  simpa using Fir.Proofs.PassInt.u16x1 p row start ks hk hb
+
+theorem u16x2_sse4_eq_passInt (p : Nat) (row : List Int) (start : Nat) (ks : List Int) (c : Nat) (hc : c < 2)
+    (hk : ∀ k ∈ ks, -2147483648 ≤ k ∧ k ≤ 2147483647) (hb : ∀ i, 0 ≤ row.getD i 0 ∧ row.getD i 0 ≤ 65535) :
+    (Fir.SimdU16x2.pixel p row start ks).getD c 0
+      = passInt .u16 ks ((List.range ks.length).map fun i => row.getD (2 * (start + i) + c) 0) p :=
+  Fir.Proofs.PassInt.u16x2 p row start ks c hc hk hb
+
+theorem u16x3_sse4_eq_passInt (p w : Nat) (hp2 : 2 ≤ p) (row : List Int) (start : Nat) (ks : List Int) (c : Nat) (hc : c < 3)
+    (hk : ∀ k ∈ ks, -2147483648 ≤ k ∧ k ≤ 2147483647) (hb : ∀ i, 0 ≤ row.getD i 0 ∧ row.getD i 0 ≤ 65535) :
+    (Fir.SimdU16x3.pixel p w row start ks).getD c 0
+      = passInt .u16 ks ((List.range ks.length).map fun i => row.getD (3 * (start + i) + c) 0) p ∧
+    (Fir.SimdU16x3.pixelR p w row start ks).getD c 0
+      = passInt .u16 ks ((List.range ks.length).map fun i => row.getD (3 * (start + i) + c) 0) p :=
+  Fir.Proofs.PassInt.u16x3 p w hp2 row start ks c hc hk hb
+
+theorem u16x4_sse4_eq_passInt (p : Nat) (row : List Int) (start : Nat) (ks : List Int) (c : Nat) (hc : c < 4)
+    (hk : ∀ k ∈ ks, -2147483648 ≤ k ∧ k ≤ 2147483647) (hb : ∀ i, 0 ≤ row.getD i 0 ∧ row.getD i 0 ≤ 65535) :
+    (Fir.SimdU16x4.pixel p row start ks).getD c 0
+      = passInt .u16 ks ((List.range ks.length).map fun i => row.getD (4 * (start + i) + c) 0) p :=
+  Fir.Proofs.PassInt.u16x4 p row start ks c hc hk hb
+
+theorem u8x2_sse4_eq_passInt (p : Nat) (hp2 : 2 ≤ p) (row : List Int) (start : Nat) (ks : List Int) (c : Nat) (hc : c < 2)
+    (hB : 255 * Fir.SimdU8x2.absSum ks + 2 ^ (p - 1) < (2 : Int) ^ 31)
+    (hk : ∀ k ∈ ks, -32768 ≤ k ∧ k ≤ 32767) (hb : ∀ i, 0 ≤ row.getD i 0 ∧ row.getD i 0 ≤ 255) :
+    (Fir.SimdU8x2.pixel p row start ks).getD c 0
+      = passInt .u8 ks ((List.range ks.length).map fun i => row.getD (2 * (start + i) + c) 0) p ∧
+    (Fir.SimdU8x2.pixelR p row start ks).getD c 0
+      = passInt .u8 ks ((List.range ks.length).map fun i => row.getD (2 * (start + i) + c) 0) p :=
+  Fir.Proofs.PassInt.u8x2 p hp2 row start ks c hc hB hk hb
+
+/-- hence, for instance, C10's exactness carries over: a uniform RGBA16 row through the SSE4.1 kernel (any channel, any window)
+    gives that value whenever the quantised coefficients meet `uniform_exact_u16`'s premise -/
+theorem u16x4_sse4_uniform (p : Nat) (row : List Int) (start : Nat) (ks : List Int) (c : Nat) (hc : c < 4) (v : Int)
+    (hk : ∀ k ∈ ks, -2147483648 ≤ k ∧ k ≤ 2147483647) (hv0 : 0 ≤ v) (hv : v ≤ 65535) (hrow : ∀ i, row.getD i 0 = v) :
+    (Fir.SimdU16x4.pixel p row start ks).getD c 0 = passInt .u16 ks (List.replicate ks.length v) p := by
+  rw [u16x4_sse4_eq_passInt p row start ks c hc hk (fun i => by rw [hrow i]; exact ⟨hv0, hv⟩)]
+  congr 1
+  apply List.ext_getElem
+  · simp
+  · intro i h1 h2
+    simp only [List.getElem_map, List.getElem_range, List.getElem_replicate]
+    exact hrow _
 
 end Fir.C02
